@@ -11,7 +11,7 @@ from fjsa.rules import entries
 from fjsa.rules.donate import DonationAnalysis
 from fjsa.rules.pure import PurityAnalysis, Mutation
 
-NONDETERMINISM_PREFIXES = ('numpy.random.', 'random.', 'time.', 'datetime.', 'os.urandom', 'uuid.', 'secrets.')
+NONDETERMINISM_PREFIXES = ('numpy.random.', 'random.', 'time.', 'datetime.', 'os.urandom', 'uuid.', 'secrets.', 'builtins.hash', 'builtins.id')
 ALLOWED_NONDET = {'numpy.random.RandomState', 'numpy.random.default_rng'}  # seeded generators are values
 
 
